@@ -155,6 +155,9 @@ func ProofBobWCFromBytes(ec elliptic.Curve, bzs [][]byte) (*ProofBobWC, error) {
 	if err != nil {
 		return nil, err
 	}
+	if len(bzs) != ProofBobWCBytesParts {
+		return nil, fmt.Errorf("expected %d byte parts to construct ProofBobWC", ProofBobWCBytesParts)
+	}
 	point, err := crypto.NewECPoint(ec,
 		new(big.Int).SetBytes(bzs[10]),
 		new(big.Int).SetBytes(bzs[11]))
@@ -290,6 +293,10 @@ func (pf *ProofBobWC) Verify(Session []byte, ec elliptic.Curve, pk *paillier.Pub
 	// 4. runs only in the "with check" mode from Fig. 10
 	if X != nil {
 		s1ModQ := new(big.Int).Mod(pf.S1, ec.Params().N)
+		if s1ModQ.Sign() == 0 {
+			// g^s1 would be the point at infinity, which ECPoint cannot represent (ScalarBaseMult panics)
+			return false
+		}
 		gS1 := crypto.ScalarBaseMult(ec, s1ModQ)
 		xEU, err := X.ScalarMult(e).Add(pf.U)
 		if err != nil || !gS1.Equals(xEU) {
